@@ -12,6 +12,7 @@ CONSTANTS
   Timer = TRUE
   EmitMode = "none"
   Record = TRUE
+  Eager = FALSE
 VIEW View0
 INVARIANTS TypeOK PerSeriesOrder NoDup NoDropLeak Conservation ShardFifo Complete
 CHECK_DEADLOCK FALSE
